@@ -31,6 +31,9 @@ def _atom(p, i):
             return (lambda t: z3.And(t >= 48, t <= 57)), i + 2
         if d in '.()[]{}|*+?^$\\-':
             return (lambda t, d=d: t == ord(d)), i + 2
+        if d in 'tnrfv':
+            # the escapes of single control characters mean in a pattern what they mean in a string literal
+            return (lambda t, ch={'t': 9, 'n': 10, 'r': 13, 'f': 12, 'v': 11}[d]: t == ch), i + 2
         raise EngineEscape('regex escape \\%s' % d)
     if c == '[':
         j = i + 1
